@@ -13,7 +13,7 @@ import os
 
 # obligations = the property theorems and the kernel-evaluated examples/witnesses; the handler lemmas they rest on
 # (Inv.lean, Sync.lean, PodEvents.lean, Lemmas.lean) are checked with them (axiom audit is transitive)
-THEOREMS = ["IstioModel.C15.Theorems", "IstioModel.C15.Examples"]
+THEOREMS = ["IstioModel.C15.Theorems", "IstioModel.C15.Derive", "IstioModel.C15.Examples"]
 
 # Genuine order dependences of the pinned controller that are reproduced exactly by the model and are
 # not repaired (see notes/C15.md, "Findings").  The coordinator lists them in known-findings.json; until
